@@ -918,8 +918,25 @@ def _r3(ck: Checker, prog: Program):
             got = [str(l.value)[:200] for l in rets]
             ck.violation("C08.R3", m.qualname, "mean-curve peak search",
                          f"the peak of the mean curve is not searched as `{src}` (returns {got})", loc=m.loc())
-        absent = sp.Eq(gi(want_call, sp.Integer(0)), sp.Symbol("None"), evaluate=False)
-        refused = any(l.exit == "raise" and any(str(absent) in str(x) for x in literals(l)) for l in leaves)
+        # by value: with an absent frequency (the finder reports (None, None)) every path refuses, with a pair found none does
+        from ..pathtable import holds as _holds
+        NONE_ = sp.Symbol("None")
+        F0, A0 = gi(want_call, sp.Integer(0)), gi(want_call, sp.Integer(1))
+
+        def verdicts(world):
+            out = []
+            for l in leaves:
+                vs = []
+                for x in literals(l):
+                    y = x.xreplace(world) if hasattr(x, "xreplace") else x
+                    vs.append(_holds(y, {}))
+                if any(v is False for v in vs):
+                    continue
+                out.append((l.exit, all(v is True for v in vs)))
+            return out
+        absent_world = verdicts({F0: NONE_, A0: NONE_})
+        found_world = verdicts({F0: sp.Function("given")(sp.Integer(0)), A0: sp.Function("given")(sp.Integer(1))})
+        refused = bool(absent_world) and all(ex == "raise" for ex, _sure in absent_world) and any(ex == "return" for ex, _sure in found_world)
         if not refused:
             ck.violation("C08.R3", m.qualname, "absent mean-curve peak", "an absent mean-curve peak is not refused", loc=m.loc())
     az = prog.cls("HvsrAzimuthal")
